@@ -49,10 +49,20 @@ pub struct Hints {
     isqrt: Vec<Option<(bool, Fq)>>,
     enc: Vec<Option<Fq>>,
 }
+thread_local! {
+    /// the constraint system of the running op, and the number of witnesses allocated when the inputs were in place (set by `arm`)
+    static CUR_CS: std::cell::RefCell<Option<Cs>> = std::cell::RefCell::new(None);
+    static W0: std::cell::Cell<usize> = std::cell::Cell::new(0);
+}
 impl Hints {
     fn arm(&self) {
         verif_hints::set_isqrt_hints(&self.isqrt);
         verif_hints::set_enc_hints(&self.enc);
+        CUR_CS.with(|c| {
+            if let Some(cs) = c.borrow().as_ref() {
+                W0.with(|w| w.set(cs.num_witness_variables()));
+            }
+        });
     }
 }
 struct Guard;
@@ -599,6 +609,139 @@ fn check_sat(cs: &Cs) -> Option<Option<usize>> {
     Some(None)
 }
 
+/// The "non-unique bits" forgery.  Inputs (instance variables and the witnesses allocated before the gadget ran) stay fixed.  For every
+/// window of 253 consecutive boolean witnesses allocated by the gadget that reads (most or least significant bit first) as an integer n < p with n + p < 2^253, the window is overwritten with the bits of n + p; later witnesses are
+/// re-solved constraint by constraint (a violated constraint whose highest later witness occurs in exactly one of its three rows is
+/// repaired by solving for that witness: this recomputes dependent selects, products and the observation witnesses).  If the forged
+/// assignment satisfies every constraint although the honest one did not, or with different observed outputs, the gadget is unsound.
+/// Output: `nforge=<windows tried> unsound=<0|1> [at=<witness index> honest=<obs;...> forged=<obs;...>]`.
+fn forge(cs: &Cs, obs: &[usize], honest_sat: bool) -> String {
+    let mx = match cs.to_matrices() {
+        Some(m) => m,
+        None => return "nforge=0 unsound=0".to_string(),
+    };
+    let z0: Vec<Fq> = {
+        let b = cs.borrow().unwrap();
+        b.instance_assignment.iter().chain(b.witness_assignment.iter()).cloned().collect()
+    };
+    let ninst = mx.num_instance_variables;
+    let w0 = W0.with(|w| w.get());
+    let isb = |v: &Fq| *v == Fq::ZERO || *v == Fq::ONE;
+    let nw = z0.len() - ninst;
+    let mut cands = vec![];
+    let mut i = w0;
+    while i < nw {
+        if isb(&z0[ninst + i]) {
+            let mut j = i;
+            while j < nw && isb(&z0[ninst + j]) {
+                j += 1;
+            }
+            let mut k = i;
+            while k + 253 <= j {
+                cands.push(k);
+                k += 253;
+            }
+            i = j;
+        } else {
+            i += 1;
+        }
+    }
+    let ev = |row: &Vec<(Fq, usize)>, z: &Vec<Fq>| -> Fq {
+        let mut acc = Fq::ZERO;
+        for (c, i) in row {
+            acc += *c * z[*i];
+        }
+        acc
+    };
+    let p = num_bigint::BigUint::from_bytes_le(&{
+        use ark_ff::BigInteger;
+        <Fq as PrimeField>::MODULUS.to_bytes_le()
+    });
+    let two253 = num_bigint::BigUint::from(1u8) << 253;
+    let honest_obs: Vec<String> = obs.iter().map(|o| fs(&z0[ninst + *o])).collect();
+    let mut tried = 0;
+    let mut dbg = String::new();
+    let cands2: Vec<(usize, bool)> = cands.iter().flat_map(|k| [(*k, true), (*k, false)]).collect();
+    for (k, be) in cands2 {
+        // position of bit t (t = 0: most significant) inside the window, for both allocation orders
+        let pos = |t: usize| if be { k + t } else { k + 252 - t };
+        let mut n = num_bigint::BigUint::from(0u8);
+        for t in 0..253 {
+            n = (n << 1) + num_bigint::BigUint::from(if z0[ninst + pos(t)] == Fq::ONE { 1u8 } else { 0u8 });
+        }
+        if std::env::var("FORGE_DEBUG").is_ok() { dbg.push_str(&format!("[k={} be={} n={:x}]", k, be, n)); }
+        if n >= p {
+            continue;
+        }
+        let m = &n + &p;
+        if m >= two253 {
+            continue;
+        }
+        tried += 1;
+        let mut z = z0.clone();
+        for t in 0..253 {
+            z[ninst + pos(t)] = if m.bit((252 - t) as u64) { Fq::ONE } else { Fq::ZERO };
+        }
+        let first_free = ninst + k + 253;
+        for _pass in 0..4 {
+            let mut changed = false;
+            for ci in 0..mx.num_constraints {
+                let (a, b, c) = (ev(&mx.a[ci], &z), ev(&mx.b[ci], &z), ev(&mx.c[ci], &z));
+                if a * b == c {
+                    continue;
+                }
+                // the highest later witness of this constraint
+                let mut best: Option<usize> = None;
+                for row in [&mx.a[ci], &mx.b[ci], &mx.c[ci]] {
+                    for (_, v) in row.iter() {
+                        if *v >= first_free && best.map_or(true, |bv| *v > bv) {
+                            best = Some(*v);
+                        }
+                    }
+                }
+                let v = match best {
+                    Some(v) => v,
+                    None => continue,
+                };
+                let coef = |row: &Vec<(Fq, usize)>| -> Fq { row.iter().filter(|(_, i)| *i == v).map(|(c, _)| *c).sum() };
+                let (ca, cb, cc) = (coef(&mx.a[ci]), coef(&mx.b[ci]), coef(&mx.c[ci]));
+                let nz = [ca, cb, cc].iter().filter(|x| **x != Fq::ZERO).count();
+                if nz != 1 {
+                    continue;
+                }
+                use ark_ff::Field;
+                if cc != Fq::ZERO {
+                    z[v] += (a * b - c) * cc.inverse().unwrap();
+                    changed = true;
+                } else if ca != Fq::ZERO && b != Fq::ZERO {
+                    z[v] += (c * b.inverse().unwrap() - a) * ca.inverse().unwrap();
+                    changed = true;
+                } else if cb != Fq::ZERO && a != Fq::ZERO {
+                    z[v] += (c * a.inverse().unwrap() - b) * cb.inverse().unwrap();
+                    changed = true;
+                }
+            }
+            if !changed {
+                break;
+            }
+        }
+        let sat = (0..mx.num_constraints).all(|ci| ev(&mx.a[ci], &z) * ev(&mx.b[ci], &z) == ev(&mx.c[ci], &z));
+        if sat {
+            let forged_obs: Vec<String> = obs.iter().map(|o| fs(&z[ninst + *o])).collect();
+            if !honest_sat || forged_obs != honest_obs {
+                return format!(
+                    "nforge={} unsound=1 at={} honest={} forged={}",
+                    tried,
+                    k,
+                    if honest_obs.is_empty() { "-".to_string() } else { honest_obs.join(";") },
+                    if forged_obs.is_empty() { "-".to_string() } else { forged_obs.join(";") }
+                );
+            }
+        }
+    }
+    format!("nforge={} unsound=0{}", tried, dbg)
+}
+
 #[derive(Clone, Copy, PartialEq)]
 enum How {
     Vals,
@@ -606,6 +749,8 @@ enum How {
     /// like Shape, but synthesised in `SynthesisMode::Setup` (no assignments available), as key generation does
     ShapeSetup,
     Dump,
+    /// after the honest synthesis, try the "non-unique bit decomposition" forgery on every run of 253 boolean witnesses the gadget allocated
+    Forge,
 }
 
 fn run(name: &str, g: &mut Args, how: How) -> R {
@@ -616,10 +761,33 @@ fn run(name: &str, g: &mut Args, how: How) -> R {
     if how == How::ShapeSetup {
         cs.set_mode(ark_relations::r1cs::SynthesisMode::Setup);
     }
+    CUR_CS.with(|c| *c.borrow_mut() = Some(cs.clone()));
+    W0.with(|w| w.set(0));
     let res = {
         let _guard = Guard;
         gad(cs.clone(), &hints)
     };
+    CUR_CS.with(|c| *c.borrow_mut() = None);
+    // Forge: make field / boolean outputs observable as witnesses  o_k  with the constraint  out_k = o_k
+    let mut obs: Vec<usize> = vec![];
+    if how == How::Forge {
+        if let Ok(ov) = &res {
+            let comps: Vec<FqVar> = match ov {
+                OV::Fq(x) => vec![x.clone()],
+                OV::Bo(b) => vec![FqVar::from(b.clone())],
+                OV::BoFq(b, y) => vec![FqVar::from(b.clone()), y.clone()],
+                _ => vec![],
+            };
+            for c in comps {
+                let idx = cs.num_witness_variables();
+                if let Ok(o) = FqVar::new_witness(cs.clone(), || c.value()) {
+                    if c.enforce_equal(&o).is_ok() {
+                        obs.push(idx);
+                    }
+                }
+            }
+        }
+    }
     cs.finalize();
     // Same verdict as `cs.is_satisfied()`, computed from the matrices so that nothing is
     // written to stderr (ark-relations prints a trace hint for every unsatisfied system).
@@ -649,6 +817,10 @@ fn run(name: &str, g: &mut Args, how: How) -> R {
                 }
             }
         }
+        How::Forge => {
+            out.push(' ');
+            out.push_str(&forge(&cs, &obs, sat == "1"));
+        }
         How::Shape | How::ShapeSetup | How::Dump => {
             let d = cs.to_matrices().map(|m| dump(&m));
             match (how, d) {
@@ -673,6 +845,10 @@ pub fn reg(m: &mut Map) {
     op!(m, "r1.shape.setup", |g| {
         let n = g.next()?.to_string();
         run(&n, g, How::ShapeSetup)
+    });
+    op!(m, "r1.forge", |g| {
+        let n = g.next()?.to_string();
+        run(&n, g, How::Forge)
     });
     op!(m, "r1.dump", |g| {
         let n = g.next()?.to_string();
